@@ -634,7 +634,15 @@ func ToEntry(n Node) (e *Entry) {
 	// (directly or through other groupings) uses itself.
 	if g, ok := n.(*Grouping); ok {
 		ms.usesInProgress = append(ms.usesInProgress, g)
-		defer func() { ms.usesInProgress = ms.usesInProgress[:len(ms.usesInProgress)-1] }()
+		defer func() {
+			ms.usesInProgress = ms.usesInProgress[:len(ms.usesInProgress)-1]
+			// Every grouping of a cycle converts to the same error, so that
+			// what its users get does not depend on where the cycle was
+			// entered.
+			if cycle := ms.usesCycle[g]; cycle != nil {
+				e = usesCycleError(cycle)
+			}
+		}()
 	}
 
 	var err error
@@ -704,8 +712,18 @@ func ToEntry(n Node) (e *Entry) {
 		}
 		for i, p := range ms.usesInProgress {
 			if p == g {
-				return usesCycleError(ms.usesInProgress[i:])
+				cycle := append([]*Grouping{}, ms.usesInProgress[i:]...)
+				if ms.usesCycle == nil {
+					ms.usesCycle = map[*Grouping][]*Grouping{}
+				}
+				for _, c := range cycle {
+					ms.usesCycle[c] = cycle
+				}
+				return usesCycleError(cycle)
 			}
+		}
+		if cycle := ms.usesCycle[g]; cycle != nil {
+			return usesCycleError(cycle)
 		}
 		// We need to return a duplicate so we resolve properly
 		// when the group is used in multiple locations and the
